@@ -86,6 +86,7 @@ type Inject struct {
 	G     int
 	Bytes []byte
 	Stop  bool
+	Cut   bool // the stream ends (EOF) right after Bytes
 }
 
 // RunPeer starts the scripted peer as a controlled thread. base is the offset in the
@@ -95,6 +96,10 @@ func (c *Conn) RunPeer(name string, base int, steps []Step, inj *Inject) {
 		for g := 0; g <= len(steps); g++ {
 			if inj != nil && inj.G == g {
 				c.C.Deliver(inj.Bytes)
+				if inj.Cut {
+					c.C.CutRead()
+					return
+				}
 				if inj.Stop {
 					return
 				}
@@ -158,6 +163,53 @@ func errClass(err error) string {
 		return "callback"
 	}
 	return "other"
+}
+
+// Prelude gives the client a history before the scenario proper: one earlier query on the
+// same client that ended well ("ok") or with a server exception ("exception"; the client
+// stays open by design). It runs as a quiet region (one atomic block, no branching) and
+// moves the scenario's base offsets past the bytes it exchanged. A non-empty return is a
+// harness-visible failure of the prelude itself.
+func (c *Conn) Prelude(kind string) string {
+	if kind == "" {
+		return ""
+	}
+	msg := ""
+	vsched.Quiet(func() {
+		before := c.C.OutLen()
+		reply := EOS()
+		if kind == "exception" {
+			reply = c.W.Exception(refwire.Exception{Code: 60, Name: "DB::Exception", Message: "Table default.prelude doesn't exist", Stack: "stack"})
+		}
+		vsched.Go("prelude-peer", func() {
+			closed := false
+			c.C.Await(func(o []byte, cl bool) bool {
+				if cl {
+					closed = true
+					return true
+				}
+				pk, _, err := ParseClient(o[before:], c.W)
+				return err != nil || len(pk) >= 2
+			})
+			if !closed {
+				c.C.Deliver(reply)
+			}
+		})
+		ctx, cancel := context.WithTimeout(context.Background(), 10*time.Second)
+		err := c.Cl.Do(ctx, ch.Query{Body: "SELECT * FROM prelude", QueryID: "prelude"})
+		cancel()
+		switch {
+		case kind == "ok" && err != nil:
+			msg = fmt.Sprintf("prelude query failed: %v", err)
+		case kind == "exception" && !ch.IsException(err):
+			msg = fmt.Sprintf("prelude query: want a server exception, got %v", err)
+		case c.Cl.IsClosed():
+			msg = "client closed after the prelude query"
+		}
+		c.HsLen = c.C.OutLen()
+		c.HsIn = c.C.Consumed()
+	})
+	return msg
 }
 
 // ProbeResult is what the post-failure probe observed.
